@@ -32,6 +32,10 @@ func main() {
 	out := fs.String("out", "", "result JSON path")
 	replay := fs.String("replay", "", "replay file")
 	fs.Parse(os.Args[2:])
+	if id == "runone" {
+		runOne()
+		return
+	}
 	if id == "gen" {
 		if err := genTables(*out); err != nil {
 			fmt.Fprintln(os.Stderr, "gen:", err)
